@@ -10,7 +10,7 @@ run_demo() { ( cd $WT && PYTHONPATH=$WT TF_CPP_MIN_LOG_LEVEL=3 CUDA_VISIBLE_DEVI
 clean_rc=$(run_demo clean)
 git apply $SRC/patch.diff || { echo "{\"error\": \"patch does not apply\"}" > $OUT/vet.json; exit 1; }
 patched_rc=$(run_demo patched)
-/venv/bin/python -m pytest -ra -q -p no:cacheprovider --timeout=900 --continue-on-collection-errors --junitxml=$OUT/junit.xml > $OUT/pytest.log 2>&1
+/venv/bin/python -m pytest -ra -q -p no:cacheprovider --timeout=900 --continue-on-collection-errors --junitxml=$OUT/junit.xml 2>&1 | tail -c 3000 > $OUT/pytest_tail.log
 git checkout -q -- .
 /venv/bin/python - "$OUT" "$clean_rc" "$patched_rc" <<'PY'
 import json, sys, xml.etree.ElementTree as ET
